@@ -194,3 +194,10 @@ func VerifC16_OrchestrationKeys() {
 //
 //verif:reach sliced
 func VerifC16_AcceptedTemplateSlicesRun() { VerifC15_TemplateSlices() }
+
+// VerifC06_TagWindowsFollowTheValue: tag templates may carry substring windows
+// (${key[-N:]}, ${key[a:b]}); the tag separates two key values only if the
+// window is computed as documented for every value (C15's slice harness read for C06).
+//
+//verif:reach sliced
+func VerifC06_TagWindowsFollowTheValue() { VerifC15_TemplateSlices() }
